@@ -131,12 +131,12 @@ fn nt_c04(_m: &Model, classes: &std::collections::HashSet<&'static str>) -> bool
 }
 
 fn case_small(t: &mut Tape, st: &mut Stats) -> Verdict {
-    let p = gen_program(t, GenCfg { functions: false, failures: false, max_depth: 5, max_stmts: 30, long_loops: false, probe_conditions: true, lib_calls: true });
+    let p = gen_program(t, GenCfg { breaks: false, functions: false, failures: false, max_depth: 5, max_stmts: 30, long_loops: false, probe_conditions: true, lib_calls: true });
     run_program(&p, t, st, "C04", nt_c04)
 }
 
 fn case_large(t: &mut Tape, st: &mut Stats) -> Verdict {
-    let p = gen_program(t, GenCfg { functions: false, failures: false, max_depth: 8, max_stmts: 120, long_loops: false, probe_conditions: false, lib_calls: false });
+    let p = gen_program(t, GenCfg { breaks: false, functions: false, failures: false, max_depth: 8, max_stmts: 120, long_loops: false, probe_conditions: false, lib_calls: false });
     run_program(&p, t, st, "C04", nt_c04)
 }
 
@@ -165,7 +165,7 @@ fn case_long_loops(t: &mut Tape, st: &mut Stats) -> Verdict {
         }
         return v;
     }
-    let p = gen_program(t, GenCfg { functions: false, failures: false, max_depth: 4, max_stmts: 10, long_loops: true, probe_conditions: false, lib_calls: false });
+    let p = gen_program(t, GenCfg { breaks: false, functions: false, failures: false, max_depth: 4, max_stmts: 10, long_loops: true, probe_conditions: false, lib_calls: false });
     run_program_bounded(&p, t, st, "C04", |m, _| m.classes.contains("while-ran-100-times"), 12_000)
 }
 
